@@ -129,6 +129,12 @@ theorem fragments_of_periodic {P : Nat} (enc : Nat → List ρ → List β)
       congr 1
       rw [hm, Nat.mul_comm P m, hmul]
 
+theorem map_flatMap_flatten (r : ρ → List β) (frags : List (List ρ)) :
+    (frags.map (fun f => f.flatMap r)).flatten = frags.flatten.flatMap r := by
+  induction frags with
+  | nil => rfl
+  | cons f t ih => simp [List.flatMap_append, ih]
+
 /-! ## (a) uncompressed -/
 
 theorem encPixels_append (encPx : α → List β) (a b : List α) :
@@ -427,6 +433,73 @@ theorem encBlocks_eq_mul {bw bh w k : Nat} (hbh : 0 < bh) (hk : 0 < k)
       (chunks (k * bh) img).flatMap (fun G => (chunks bh G).flatMap
         (fun g => encodeGroup bw bh w encBlock (padRows bh g))) := by
   rw [encBlocks_eq hbh, ← List.flatMap_assoc, chunks_flatMap hbh hk]
+
+/-! ## the split model never splits the stateful families -/
+
+theorem fragmentHeight_none_of_no_split_height (w h : Nat) (s : Support) (d : Dithering)
+    (q : Quality) (hs : s.splitHeight = none) :
+    (SplitView.new w h (some s) d q).fragmentHeight = none := by
+  have : getFragmentHeight w h (some s) d q = none := by
+    unfold getFragmentHeight
+    by_cases he : w = 0 ∨ h = 0
+    · rw [if_pos he]
+    · rw [if_neg he]; simp only [hs]
+  unfold SplitView.new; rw [this]
+
+theorem fragmentHeight_none_of_global_dithering (w h : Nat) (s : Support) (d : Dithering)
+    (q : Quality) (hl : s.localDithering = false) (hd : d.intersect s.dithering ≠ .none) :
+    (SplitView.new w h (some s) d q).fragmentHeight = none := by
+  have : getFragmentHeight w h (some s) d q = none := by
+    unfold getFragmentHeight
+    by_cases he : w = 0 ∨ h = 0
+    · rw [if_pos he]
+    · rw [if_neg he]
+      simp only
+      cases hsh : s.splitHeight with
+      | none => rfl
+      | some sh =>
+        simp only
+        have hc : ((!s.localDithering) && decide (d.intersect s.dithering ≠ .none)) = true := by
+          simp [hl, hd]
+        rw [if_pos hc]
+  unfold SplitView.new; rw [this]
+
+/-! ## reading the table checks -/
+
+theorem splitOk_wf {ctor : C19.SetCtor} {px : PixelInfo} {s : Support}
+    (h : splitOk ctor px s.splitHeight = true) : s.WF := by
+  intro sh hsh
+  rw [hsh] at h
+  unfold splitOk at h
+  cases ctor <;> cases px <;> simp at h <;> omega
+
+theorem splitOk_bc {bytes bw bh : Nat} {sho : Option Nat}
+    (h : splitOk .bc (.block bytes bw bh) sho = true) :
+    ∀ sh, sho = some sh → 0 < bh ∧ ∃ k, 0 < k ∧ sh = k * bh := by
+  intro sh hsh
+  subst hsh
+  simp [splitOk] at h
+  obtain ⟨⟨⟨h0, _⟩, hbh⟩, hmod⟩ := h
+  refine ⟨hbh, sh / bh, ?_, ?_⟩
+  · have := Nat.div_add_mod sh bh
+    rw [hmod] at this
+    cases hk : sh / bh with
+    | zero => rw [hk] at this; simp at this; omega
+    | succ n => omega
+  · have := Nat.div_add_mod sh bh
+    rw [hmod, Nat.mul_comm] at this
+    omega
+
+theorem splitOk_biPlanar {p1 p2 sx sy : Nat} {sho : Option Nat}
+    (h : splitOk .biPlanar (.biPlanar p1 p2 sx sy) sho = true) : sho = none := by
+  cases sho with
+  | none => rfl
+  | some sh => simp [splitOk] at h
+
+theorem kindOk_stateful {kind : C19.EncKind} {s : Support} {d : Dithering}
+    (hk : kind = .fsDither ∨ kind = .bayer) (h : kindOk kind .plain s d = true) :
+    s.localDithering = false ∧ d.intersect s.dithering ≠ .none := by
+  rcases hk with hk | hk <;> subst hk <;> simpa [kindOk] using h
 
 end EncRows
 end Dds
